@@ -834,12 +834,15 @@ pub struct Gen {
     anns: Vec<String>, // ids or #handles of annotations created so far
     nann: usize,
     data_ids: Vec<(String, String)>,
+    /// give some annotations a public identifier in the shape of a temporary one (`!A7`): only where the store itself is
+    /// examined; the serialisation formats reserve that shape (a known finding of C05/C15)
+    pub temp_shaped_ids: bool,
     next_id: usize,
 }
 
 impl Gen {
     pub fn new(seed: u64) -> Self {
-        Gen { rng: Rng::new(seed), rich: false, force_ids: false, res: vec![], sets: vec![], keys: vec![], anns: vec![], nann: 0, data_ids: vec![], next_id: 0 }
+        Gen { rng: Rng::new(seed), rich: false, force_ids: false, res: vec![], sets: vec![], keys: vec![], anns: vec![], nann: 0, data_ids: vec![], next_id: 0, temp_shaped_ids: false }
     }
     fn pick_res(&mut self) -> String {
         if self.res.is_empty() || self.rng.chance(6) { "nores".into() } else { self.rng.pick(&self.res).0.clone() }
@@ -1009,12 +1012,15 @@ impl Gen {
         }
         if c < 72 {
             let id = if self.force_ids || self.rng.chance(70) {
-                if !self.anns.is_empty() && self.rng.chance(6) { self.rng.pick(&self.anns).clone() } else if self.rng.chance(6) { format!("!Alpha{}", self.nann) } else if self.rng.chance(3) { format!("!A{}x", self.nann) } else { format!("a{}", self.nann) }
+                if !self.anns.is_empty() && self.rng.chance(6) { self.rng.pick(&self.anns).clone() } else if self.rng.chance(6) { format!("!Alpha{}", self.nann) } else if self.rng.chance(3) { format!("!A{}x", self.nann) } else if self.temp_shaped_ids && self.rng.chance(4) { format!("!A{}", self.nann + 3 + self.rng.below(3)) } else { format!("a{}", self.nann) }
             } else { "~".into() };
             let target = self.target();
             let nd = match self.rng.below(12) { 0..=2 => 0, 3..=7 => 1, 8..=9 => 2, 10 => 3, _ => 4 };
             let data: Vec<String> = (0..nd).map(|_| self.data()).collect();
-            if id != "~" && !id.starts_with('#') && !self.anns.contains(&id) { self.anns.push(id.clone()); }
+            // (an identifier in the shape of a temporary one is looked up and removed by, but not used in targets: the store
+            // model resolves references in targets by public identifier only)
+            let temp_shaped = id.starts_with("!A") && id[2..].chars().all(|c| c.is_ascii_digit());
+            if id != "~" && !id.starts_with('#') && !temp_shaped && !self.anns.contains(&id) { self.anns.push(id.clone()); }
             self.nann += 1;
             return format!("st annot {} {} {}", id, target, data.join(" ")).trim_end().to_string();
         }
@@ -1273,7 +1279,7 @@ fn lookup_strings(script: &[String], rng: &mut Rng) -> Vec<String> {
     let mut v: BTreeSet<String> = BTreeSet::new();
     for l in script {
         for tok in l.split(|c: char| c.is_whitespace() || ":/;[]".contains(c)) {
-            if tok.len() >= 2 && tok.len() <= 6 && tok.chars().next().map(|c| "arsdkn".contains(c)).unwrap_or(false) {
+            if tok.len() >= 2 && tok.len() <= 6 && tok.chars().next().map(|c| "arsdkn!".contains(c)).unwrap_or(false) {
                 v.insert(tok.to_string());
             }
         }
@@ -1354,10 +1360,9 @@ fn run_ids(rep: &mut Report, script: &[String], with_reindex: bool, rng: &mut Rn
                 if it.next() == Some('!') && it.next() == Some(letter(kind)) { parse_usize(it.as_str()) } else { None }
             };
             let got_desc = out.strip_prefix('h').and_then(|h| h.parse().ok()).and_then(|h: usize| describe(&ex.store, kind, h));
-            let want_desc = match temp {
-                Some(h) => describe(&ex.store, kind, h),
-                None => before.get(&(kind.to_string(), id.clone())).cloned().flatten(),
-            };
+            // the item that carries the string as its public identifier comes first (also when the string has the shape
+            // of a temporary identifier), then the temporary-identifier reading
+            let want_desc = before.get(&(kind.to_string(), id.clone())).cloned().flatten().or_else(|| temp.and_then(|h| describe(&ex.store, kind, h)));
             if got_desc != want_desc {
                 let cls = if temp.is_some() { "temp-id" } else if with_reindex { "after-reindex" } else if id.starts_with('!') { "temp-like" } else { "public-id" };
                 rep.fail("oracle", &format!("C03/resolve-{}/{}", kind, cls), c, &format!("{:?}", want_desc), &format!("{:?} ({})", got_desc, out));
@@ -1451,7 +1456,7 @@ pub fn run(opts: &Opts) -> Report {
         }
     }
     for i in 0..nscripts {
-        let mut g = Gen { rng: Rng::new(opts.seed.wrapping_mul(1_000_003).wrapping_add(i as u64)), rich: false, force_ids: false, res: vec![], sets: vec![], keys: vec![], anns: vec![], nann: 0, data_ids: vec![], next_id: 0 };
+        let mut g = Gen { rng: Rng::new(opts.seed.wrapping_mul(1_000_003).wrapping_add(i as u64)), rich: false, force_ids: false, res: vec![], sets: vec![], keys: vec![], anns: vec![], nann: 0, data_ids: vec![], next_id: 0, temp_shaped_ids: true };
         let n = 4 + g.rng.below(maxops);
         let mut script: Vec<String> = if i % 4 == 3 { scenario(&mut g) } else { vec![] };
         if !script.is_empty() {
@@ -1471,7 +1476,7 @@ pub fn run(opts: &Opts) -> Report {
     {
         let n = if opts.thorough() { 3000 } else { 400 };
         for i in 0..n {
-            let mut g = Gen { rng: Rng::new(opts.seed.wrapping_mul(5_000_011).wrapping_add(i as u64)), rich: false, force_ids: i % 2 == 0, res: vec![], sets: vec![], keys: vec![], anns: vec![], nann: 0, data_ids: vec![], next_id: 0 };
+            let mut g = Gen { rng: Rng::new(opts.seed.wrapping_mul(5_000_011).wrapping_add(i as u64)), rich: false, force_ids: i % 2 == 0, res: vec![], sets: vec![], keys: vec![], anns: vec![], nann: 0, data_ids: vec![], next_id: 0, temp_shaped_ids: true };
             let mut script: Vec<String> = vec!["st addres r0 9".into()];
             g.res.push(("r0".into(), 9));
             let modes = ["text", "checksum", "both", "auto"];
@@ -1503,7 +1508,7 @@ pub fn run(opts: &Opts) -> Report {
         let dir = std::path::Path::new(env!("CARGO_MANIFEST_DIR")).join("target").join("scratch").join(format!("af{}", std::process::id()));
         std::fs::create_dir_all(&dir).ok();
         for i in 0..n {
-            let mut g = Gen { rng: Rng::new(opts.seed.wrapping_mul(3_000_017).wrapping_add(i as u64)), rich: false, force_ids: true, res: vec![], sets: vec![], keys: vec![], anns: vec![], nann: 0, data_ids: vec![], next_id: 0 };
+            let mut g = Gen { rng: Rng::new(opts.seed.wrapping_mul(3_000_017).wrapping_add(i as u64)), rich: false, force_ids: true, res: vec![], sets: vec![], keys: vec![], anns: vec![], nann: 0, data_ids: vec![], next_id: 0, temp_shaped_ids: true };
             let mut script: Vec<String> = vec!["st addres r0 9".into(), "st adddata s0 d0 k0 s:v0".into()];
             let nops = g.rng.below(8);
             script.extend((0..nops).map(|_| g.op()));
@@ -1545,7 +1550,7 @@ pub fn run(opts: &Opts) -> Report {
     if property.map(|p| p == "C03").unwrap_or(true) {
         let n03 = if opts.thorough() { 3000 } else { 400 };
         for i in 0..n03 {
-            let mut g = Gen { rng: Rng::new(opts.seed.wrapping_mul(7_000_003).wrapping_add(i as u64)), rich: false, force_ids: false, res: vec![], sets: vec![], keys: vec![], anns: vec![], nann: 0, data_ids: vec![], next_id: 0 };
+            let mut g = Gen { rng: Rng::new(opts.seed.wrapping_mul(7_000_003).wrapping_add(i as u64)), rich: false, force_ids: false, res: vec![], sets: vec![], keys: vec![], anns: vec![], nann: 0, data_ids: vec![], next_id: 0, temp_shaped_ids: true };
             let n = 4 + g.rng.below(24);
             let mut script: Vec<String> = (0..n).map(|_| g.op()).collect();
             match g.rng.below(6) {
